@@ -52,8 +52,12 @@ def _update_case(job):
             fv.set(tags=tags, tags_branch=tags_branch, status="", remote="", branches="* main 1234abc [origin/main] msg\n", fail=[vcs_fault, "ls_tags_branch"] if vcs_fault == "ls_tags" else [vcs_fault])
         else:
             fv.set(tags=tags, tags_branch=tags_branch, status="", remote="", branches="")
+        # the scope in force comes from the config file or - in two cases of five - from --tag-scope on the command line over a DIFFERENT configured scope
+        scopes = ["default", "global", "branch"]
+        cli_scope = idx % 5 in (0, 1)
+        cfg_scope = scopes[(scopes.index(scope) + 1 + idx % 2) % 3] if cli_scope else scope
         proj.write("bumpver.toml", project.bumpver_toml(cfgver, pat, [("README.md", ["{version}"]), ("src/pkg.txt", ['version = "{version}"'])],
-                                                        extra={"tag_scope": scope}))
+                                                        extra={"tag_scope": cfg_scope}))
         proj.write("README.md", "# demo\n\ncurrent release: %s (see notes)\n" % cfgver)
         proj.write("src/pkg.txt", 'name = "x"\nversion = "%s"\n' % cfgver)
         proj.write("unrelated.txt", "keep %s\n" % cfgver)
@@ -63,6 +67,8 @@ def _update_case(job):
             args.append("--dry")
         if ignore:
             args.append("--ignore-vcs-tag")
+        if cli_scope:
+            args += ["--tag-scope", scope]
         if mode == "set":
             args += ["--set-version", arg[1]]
         else:
@@ -76,7 +82,7 @@ def _update_case(job):
     lst = tags_branch if scope == "branch" else tags
     return dict(ev="gate", P=glue.parse_pattern(pat), cfgver=glue.cp(cfgver), tags=[glue.cp(t) for t in lst], scope=scope, ignore=bool(ignore),
                 old=glue.cp(old) if old else [0], new=glue.cp(new) if new else [0], exit=r.exit, changed=bool(changed) if (r.exit != 0 or dry) else False,
-                today=drive.TODAY.toordinal(), dbg="cfg=%s tags=%s scope=%s: bumpver %s" % (cfgver, lst, scope, " ".join(args)), pat=pat, exc=r.exc or "",
+                today=drive.TODAY.toordinal(), dbg="cfg=%s tags=%s scope=%s (configured: %s): bumpver %s" % (cfgver, lst, scope, cfg_scope, " ".join(args)), pat=pat, exc=r.exc or "", scope_on_command_line=cli_scope,
                 klass=arg[0] if mode == "set" else "auto", dry=dry, dry_changed=bool(dry and changed), vcs_mutations=len(mut))
 
 
@@ -164,7 +170,7 @@ def run(ctx):
     by_id = {e["id"]: e for e in events}
     for f in fails:
         e = by_id[f["id"]]
-        ctx.violation(dict(clause=f["clause"], klass=e["klass"], scope=e["scope"]),
+        ctx.violation(dict(clause=f["clause"], klass=e["klass"], scope=e["scope"], scope_on_command_line=bool(e.get("scope_on_command_line"))),
                       case=dict(cmd=e["dbg"], pattern=e["pat"], exit=e["exit"], announced=glue.uncp(e["new"]) if e["new"][0] else None, exc=e["exc"]),
                       expected=f["detail"])
     # black-box clauses that need no spec operator: a dry run never changes a file nor issues a mutating VCS command
@@ -183,7 +189,7 @@ def run(ctx):
     for e in events:
         if e["exit"] == 0:
             ctx.nontriv((e["pat"], tuple(e["cfgver"]), tuple(e["new"])))
-    ctx.rule = ("`bumpver test` and `bumpver update [--dry]` runs (commit off, tag lists from the fake git, three scopes, --ignore-vcs-tag) with seeded flag sets "
+    ctx.rule = ("`bumpver test` and `bumpver update [--dry]` runs (commit off, tag lists from the fake git, three scopes from the config file or from --tag-scope over a different configured one, --ignore-vcs-tag) with seeded flag sets "
                 "or --set-version targets of 11 classes; non-trivial = distinct (pattern, start, announced) of runs that exited 0")
     for e in events[:2] + uevents[:2]:
         ctx.sample(dict(cmd=e["dbg"], exit=e["exit"], announced=glue.uncp(e["new"]) if e["new"][0] else None))
